@@ -131,6 +131,7 @@ class Report:
         self.harness_errors = []
         self.parts = {}
         self._outcomes = set()
+        self._seen_viol = set()
 
     def add_results(self, results, part=None):
         pc = self.parts.setdefault(part or "main", {"jobs": 0, "states": 0, "transitions": 0, "capped": 0,
@@ -161,6 +162,10 @@ class Report:
             if r.get("violations"):
                 pc["violating_jobs"] += 1
             for v in r.get("violations", []):
+                ident = (json.dumps(r["job"], sort_keys=True, default=repr), v["kind"], v["sig"])
+                if ident in self._seen_viol:
+                    continue
+                self._seen_viol.add(ident)
                 self.violations.append((r["job"], v))
             for k, v in (r.get("extra") or {}).items():
                 if isinstance(v, (int, float)):
